@@ -69,6 +69,9 @@ def gen_case(run_seed: int, index: int, tier: str) -> dict:
         # counters beyond 2**31: a symbol-error-rate run of 17 updates of 2**27 symbols each (thorough tier only: ~30 s, ~1 GB)
         return {"metric": "wrap", "updates": 17, "symbols_per_update": 1 << 27, "errors_every": rng.choice([1000, 4096]), "complex": False, "dtype": "int8",
                 "L": 1 << 27, "block": 1, "how": "class", "ops": [], "X": [], "Y": []}
+    if index % 3000 == 33:
+        # one call that carries more than 2**24 erroneous one-symbol blocks (an odd number: not representable in float32)
+        return {"metric": "bigser", "symbols": (1 << 24) + rng.choice([1, 3, 77]), "complex": False, "dtype": "int8", "L": 1, "block": 1, "how": "class", "ops": [], "X": [], "Y": []}
     metric = rng.choice(["ber", "bler", "bler", "pair"])
     cplx = rng.random() < 0.25
     L = rng.choice([1, 2, 3, 4, 6, 8, 12, 16, 24, 30, 30, 64, 100, 128, 255, 1000])
@@ -210,6 +213,39 @@ def _close(got: float, ref: float) -> bool:
     return abs(got - ref) <= 2e-6 * abs(ref) + 1e-9
 
 
+def _execute_bigser(case, log, res):
+    n = case["symbols"]
+    x = torch.zeros(n, 1, dtype=torch.int8)
+    y = torch.ones(n, 1, dtype=torch.int8)
+    for form, (a, b) in (("(N,1) rows, block size 1", (x, y)), ("1-D, default block size", (x.reshape(-1), y.reshape(-1)))):
+        m = bler_mod.BlockErrorRate(block_size=1) if a.dim() == 2 else bler_mod.SymbolErrorRate()
+        try:
+            m.update(a, b)
+        except Exception:
+            res.probes["bigser.layout_rejected"] += 1
+            continue
+        got = float(m.compute())
+        one = float(m(a, b))
+        log.add("bigser", {"n": n, "form": form, "stream": got, "oneshot": one})
+        if got != 1.0 or one != 1.0:
+            res.violations.append(Violation({"component": "BlockErrorRate", "kind": "streaming_value", "complex": False, "regime": "more_than_2^24_erroneous_blocks_in_one_call"},
+                                            f"C16/BlockErrorRate: {n} symbols, all different, {form}: compute() after one update = {got!r}, metric(x, y) = {one!r}; both must be exactly 1.0"))
+            break
+        # the same data in two halves must give the same value
+        m2 = bler_mod.BlockErrorRate(block_size=1) if a.dim() == 2 else bler_mod.SymbolErrorRate()
+        h = n // 2
+        m2.update(a[:h], b[:h])
+        m2.update(a[h:], b[h:])
+        if float(m2.compute()) != got:
+            res.violations.append(Violation({"component": "BlockErrorRate", "kind": "partition", "complex": False, "regime": "more_than_2^24_erroneous_blocks_in_one_call"},
+                                            f"C16/BlockErrorRate: {n} symbols fed at once give {got!r}, fed in two halves {float(m2.compute())!r}"))
+            break
+    res.nontrivial.append(core.short_hash(case))
+    res.probes["more_than_2^24_error_blocks_in_one_call_cases"] += 1
+    res.digest, res.n_events = log.digest(), len(log)
+    return res
+
+
 def _execute_wrap(case, log, res):
     m = bler_mod.BlockErrorRate(block_size=1)
     n = case["symbols_per_update"]
@@ -239,6 +275,8 @@ def execute(case: dict) -> RunResult:
     res = RunResult()
     if case.get("metric") == "wrap":
         return _execute_wrap(case, log, res)
+    if case.get("metric") == "bigser":
+        return _execute_bigser(case, log, res)
     log.add("case", {k: case[k] for k in ("metric", "complex", "dtype", "L", "block", "how")})
     kinds = ["ber", "bler"] if case["metric"] == "pair" else [case["metric"]]
     objs = {k: _make(case, k) for k in kinds}
@@ -478,7 +516,9 @@ def execute(case: dict) -> RunResult:
                     ref["ber"][1] += totbits
                     if "bler" in objs:  # keep the paired object on the same data
                         blk = block or xa.shape[-1]  # no block size: one block per row
-                        if xa.shape[-1] % blk == 0:
+                        # the paired comparison BER <= BLER <= min(1, B*BER) needs one block size B for all the data: with an explicit
+                        # block size the row must divide into blocks, without one the row must have the stream's row length
+                        if (xa.shape[-1] % blk == 0) if block else (xa.shape[-1] == L):
                             xb, yb = xa.contiguous(), ya.contiguous()
                             eb = (torch.abs(xb - yb) > 0).reshape(xb.shape[0], -1, blk).any(dim=-1)
                             objs["bler"].update(xa, ya)
@@ -519,6 +559,9 @@ def execute(case: dict) -> RunResult:
                 continue
             x = _mk_tensor(case, [r], "X", "2d").reshape(-1)
             y = _mk_tensor(case, [r], "Y", "2d").reshape(-1)
+            if oi % 3 == 1 and case["dtype"] != "bool":
+                x, y = 2 * x - 1, 2 * y - 1  # the same bits in bipolar form (-1 for 0, +1 for 1)
+                res.probes["helper.bipolar_bits"] += 1
             be, bt, ke, kt = _ref_counts(case, [r], block)
             h = StandardMetrics.bit_error_rate(x, y)
             o = float(ber_mod.BitErrorRate()(x, y))
